@@ -23,6 +23,11 @@ def h3_mux_job(ctx):
     ctx.spec_must_hold(s)
     r = ctx.harness("c07h3", ["--vectors", s["out"], "--max", "32" if ctx.thorough else "12"], name="c07h3", env={"VERIF_ROOT": ROOT}, timeout=900)
     # (+ CONNECT _icmp: three echo requests to loopback addresses through the real ICMP forwarder on lo, same segmentations)
+    # the reply records against the edge of an HTTP/2 client's stream window (the HTTP/3 job walks its own)
+    ctx.build("c07h2w")
+    r2 = ctx.harness("c07h2w", [], name="c07h2w", env={"VERIF_ROOT": ROOT}, timeout=600)
+    if r2["counters"].get("window_edge_runs", 0) == 0 and not r2.get("violations") and not any("watchdog" in n for n in r2.get("notes", [])):
+        raise ToolError("no window-edge run over HTTP/2 completed")
     if r["counters"].get("flows_round_trips", 0) == 0 and not r.get("violations") and not any("watchdog" in n for n in r.get("notes", [])):
         raise ToolError("no round trip through the HTTP/3 multiplexer was made")
     return r
